@@ -380,6 +380,72 @@ fn with_runner<const N: usize, R>(f: impl FnOnce(&mut Runner<'_, '_, N>) -> R) -
     out
 }
 
+// ------------------------------------------------------------------ the event queue's numbering
+/// `KvBlobStoreAccess` over the in-memory store (the queue persists its number epoch)
+struct KvAcc(std::cell::RefCell<MemKv>, std::cell::RefCell<[u8; 256]>);
+
+impl rs_matter::persist::KvBlobStoreAccess for KvAcc {
+    fn access<F, R>(&self, f: F) -> R
+    where
+        F: FnOnce(&mut dyn KvBlobStore, &mut [u8]) -> R,
+    {
+        f(&mut *self.0.borrow_mut(), &mut self.1.borrow_mut()[..])
+    }
+}
+
+/// `evq` cases: the REAL `Events` queue — `push k` pushes `k` events (output: the numbers `push`
+/// returned, first-last, and the number the next push will assign), `wm` = `next_event_number - 1`
+/// (what `Events::watermark` hands to `add` / `report` / `load_persist`). Ties `Subs.EvQ` of the model.
+fn evq_case(out: &mut Out, case: &Case) {
+    out.case(case.id, "evq");
+    let ev: Box<rs_matter::im::events::Events<512>> = Box::new(rs_matter::im::events::Events::new());
+    let acc = KvAcc(std::cell::RefCell::new(MemKv::default()), std::cell::RefCell::new([0u8; 256]));
+    for op in &case.ops {
+        let w: Vec<&str> = op.split_whitespace().collect();
+        let res = match w.as_slice() {
+            ["push", k] => {
+                let k: u32 = k.parse().unwrap_or(1).clamp(1, 64);
+                let mut nums: Vec<u64> = Vec::new();
+                let mut bad = false;
+                for _ in 0..k {
+                    match catch_unwind(AssertUnwindSafe(|| ev.push(1, 6, 0, rs_matter::im::EventPriority::Info, &acc, |_tw| Ok(())))) {
+                        Ok(Ok(n)) => nums.push(n),
+                        _ => {
+                            bad = true;
+                            break;
+                        }
+                    }
+                }
+                if bad || nums.is_empty() {
+                    "err".to_string()
+                } else {
+                    format!("{}-{} {}", nums[0], nums[nums.len() - 1], ev.verif_next_event_number())
+                }
+            }
+            ["wm"] => ev.verif_next_event_number().wrapping_sub(1).to_string(),
+            _ => "badop".into(),
+        };
+        out.op(op, &res);
+    }
+    out.buf.push_str("#nt\n");
+}
+
+fn gen_evq(out: &mut Out, r: &mut Rng, n: u64, first_id: u64) {
+    for i in 0..n {
+        let mut ops: Vec<String> = Vec::new();
+        for _ in 0..r.range(2, 8) {
+            if r.chance(1, 3) {
+                ops.push("wm".into());
+            } else {
+                ops.push(format!("push {}", r.range(1, 6)));
+            }
+        }
+        ops.push("wm".into());
+        out.stat("evq_cases", 1);
+        evq_case(out, &Case { id: first_id + i, kind: "evq".into(), ops });
+    }
+}
+
 fn cap_of(kind: &str) -> usize {
     kind.split_whitespace().nth(1).and_then(|x| x.parse().ok()).unwrap_or(2)
 }
@@ -657,6 +723,10 @@ pub fn gen(a: &Args) -> String {
             _ => gen_case::<4>(id, &mut cr, a.thorough, &mut out),
         }
     }
+    if !only_sys {
+        let mut er = r.fork();
+        gen_evq(&mut out, &mut er, if a.thorough { 200 } else { 20 }, 9_000_000);
+    }
     sys::gen(&mut out, &mut r, a.thorough, n_cases);
     out.finish()
 }
@@ -667,6 +737,8 @@ pub fn replay(a: &Args) -> String {
     for c in parse_cases(&text) {
         if c.kind.starts_with("sys") {
             sys::replay_case(&mut out, &c);
+        } else if c.kind.starts_with("evq") {
+            evq_case(&mut out, &c);
         } else {
             replay_case(&mut out, &c);
         }
